@@ -31,7 +31,7 @@ ANCHORS = [
     "stereomolgraph.graphs.mg:MolGraph.from_atom_types_and_bond_order_matrix",
 ]
 REQUIRED_ANCHORS = ANCHORS
-REQUIRED = ["roundtrips", "single_atom", "connectivity_matrices", "contract_evaluations", "rigid_motions", "permutations", "threshold_pairs", "translation_magnitude:1e+06", "comment:fourcol", "comment:nonascii", "comment:none", "large_geometries"]
+REQUIRED = ["roundtrips", "single_atom", "connectivity_matrices", "contract_evaluations", "rigid_motions", "permutations", "threshold_pairs", "translation_magnitude:1e+06", "comment:fourcol", "comment:nonascii", "comment:none", "large_geometries", "foreign_cutoff_overrides"]
 _contract = {"n": 0}
 
 
@@ -238,6 +238,19 @@ def _conn(ctx, case):
     c, rng = _geometry(case)
     ctx.case(("conn", n, tuple(sorted(els)), case["shape"]), True)
     n0 = _contract["n"]
+    if n >= 2 and case.get("gseed", 0) % 3 == 0:
+        # history: somebody customised the cut-offs of ANOTHER BondsFromDistance object (e.g. to count hydrogen bonds);
+        # the default rule used below must not notice
+        try:
+            from stereomolgraph.periodic_table import PERIODIC_TABLE
+
+            other = BondsFromDistance()
+            for i, j in ((0, 1), (1, 0), (0, n - 1), (n - 1, 0)):
+                key = (PERIODIC_TABLE[els[i]], PERIODIC_TABLE[els[j]])
+                other.connectivity_cutoff[key] = 10.0 * float(other.connectivity_cutoff[key])
+            ctx.count("foreign_cutoff_overrides")
+        except Exception:  # noqa: BLE001
+            ctx.count("foreign_cutoff_override_not_possible")
     try:
         m = np.asarray(BondsFromDistance().array(c.copy(), els))
     except ContractBroken as e:
